@@ -47,7 +47,7 @@ def run(chk: Check):
                    "ev": G.tau2_events(rng, 4, 2, nkeys=2 if chk.quick else 6, int_penalty=True)})
     for kind in ("prior_only", "bernoulli_direct", "finite_via_named_var", "bernoulli_two_children", "bernoulli_tempered",
                  "finite_int_current", "finite_start_outside", "finite_zero_prior", "residual_weak_dist",
-                 "bernoulli_outcomes_reversed", "finite_outcomes_unsorted"):
+                 "bernoulli_outcomes_reversed", "finite_outcomes_unsorted", "finite_auto_name_clash"):
         traces.append({"hdr": {"kind": kind, "nontrivial": kind != "prior_only"},
                        "ev": G.discrete_events(rng, kind, nkeys=64 if chk.quick else 256)})
     chk.tv("Trace_Gibbs.tla", traces, tag="gibbs", nontrivial=lambda t: t["hdr"]["nontrivial"],
